@@ -94,7 +94,13 @@ class Gen:
             out.append(m)
         if stream_last and out and rng.random() < 0.3:
             out[-1]["stream"] = True
-            out[-1]["tag"] = None
+            if rng.random() < 0.5:          # a streamed member may carry a tag (it is optional then)
+                out[-1]["tag"] = None
+            elif out[-1]["tag"] is None and tags_ok and rng.random() < 0.5:
+                tag = rng.choice([3, 5, 11, 2**31 - 2])
+                if tag not in used_tags:
+                    out[-1]["tag"] = tag
+                    out[-1]["type"]["opt"] = True
         return out
 
     def definition(self, module):
